@@ -10,11 +10,14 @@ import (
 	"os"
 	"os/exec"
 	"path/filepath"
+	"strconv"
 	"strings"
+	"sync"
 	"sync/atomic"
 	"syscall"
 	"time"
 
+	"compiler/verifh/fe"
 	"compiler/verifh/vl"
 )
 
@@ -22,6 +25,17 @@ type Runner struct {
 	Ferret, Libs, W, Repo, Dir string
 	seq                        int64
 	CompileTimeout, RunTimeout time.Duration
+	// Fast: native compilations run the real pipeline (front end, QBE, as, ld) inside
+	// long-lived worker processes instead of starting `ferret` once per program. Process
+	// creation is what limits throughput in this sandbox (about 100 exec/s for the whole
+	// machine, whatever the parallelism), and a ferret run costs twelve. Callers re-observe
+	// every disagreement with the real binary (Real*), and FastCross() programs are compiled
+	// both ways and compared.
+	Fast     bool
+	poolOnce sync.Once
+	pool     *fe.Pool
+	FastN    int64 // programs compiled in-process
+	FastFell int64 // in-process attempts that fell back to the binary (worker died / timed out)
 }
 
 func New(c *vl.Ctx) *Runner {
@@ -115,11 +129,72 @@ type Built struct {
 
 var ansi = strings.NewReplacer()
 
-// CompileNative runs `ferret -o <dir>/out.bin <entry>`.
+// compilerEnv: throughput-oriented runners (Fast) start the compiler with GOMAXPROCS=1, which
+// doubles the number of compilations per second on a busy machine; what the compiler produces
+// does not depend on it (that is property C14, checked separately under every schedule).
+func (r *Runner) compilerEnv() []string {
+	env := []string{"FERRET_LIBS_PATH=" + r.Libs}
+	if r.Fast {
+		env = append(env, "GOMAXPROCS=1")
+	}
+	return env
+}
+
+// FastWorkers is the size of the in-process compile pool: throughput peaks at 6-8 workers here.
+var FastWorkers = 8
+
+func (r *Runner) fastPool() *fe.Pool {
+	r.poolOnce.Do(func() {
+		n := FastWorkers
+		if v, err := strconv.Atoi(os.Getenv("VERIF_FASTWORKERS")); err == nil && v > 0 {
+			n = v
+		}
+		r.pool = fe.NewPool(filepath.Join(r.W, "fastfe"), r.Libs, n)
+		r.pool.Env = []string{"FERRET_LIBS_PATH=" + r.Libs, "GOMAXPROCS=1"}
+	})
+	return r.pool
+}
+
+// Close stops the in-process compile workers (if any were started).
+func (r *Runner) Close() {
+	if r.pool != nil {
+		r.pool.Close()
+	}
+}
+
+// CompileNative compiles <dir>/<entry> to <dir>/out.bin: in-process when r.Fast, else by
+// running the `ferret` binary.
 func (r *Runner) CompileNative(dir, entry string, extra ...string) Built {
+	if r.Fast && len(extra) == 0 {
+		res := r.fastPool().Do(&fe.Project{Dir: dir, Entry: entry, Mode: "native", WantText: true})
+		if !res.Timeout && res.Crash == "" {
+			atomic.AddInt64(&r.FastN, 1)
+			out := filepath.Join(dir, "out.bin")
+			b := Built{Dir: dir, Artifact: out}
+			switch {
+			case res.Panic != "":
+				b.Compile = Proc{Exit: 2, Stderr: "panic: " + res.Panic + "\n\tat " + res.PanicFrame}
+			case !res.Success:
+				b.Compile = Proc{Exit: 1, Stderr: res.Rendered}
+			default:
+				b.Compile = Proc{Exit: 0, Stderr: res.Rendered}
+			}
+			if _, err := os.Stat(out); err == nil {
+				b.Exists = true
+			}
+			return b
+		}
+		atomic.AddInt64(&r.FastFell, 1)
+	}
+	return r.RealCompileNative(dir, entry, extra...)
+}
+
+// RealCompileNative runs `ferret -o <dir>/out.bin <entry>`.
+func (r *Runner) RealCompileNative(dir, entry string, extra ...string) Built {
 	out := filepath.Join(dir, "out.bin")
+	os.Remove(out)
 	args := append(append([]string{}, extra...), "-o", out, filepath.Join(dir, entry))
-	p := runProc(r.CompileTimeout, dir, []string{"FERRET_LIBS_PATH=" + r.Libs}, r.Ferret, args...)
+	p := runProc(r.CompileTimeout, dir, r.compilerEnv(), r.Ferret, args...)
 	b := Built{Dir: dir, Compile: p, Artifact: out}
 	if _, err := os.Stat(out); err == nil {
 		b.Exists = true
@@ -130,7 +205,7 @@ func (r *Runner) CompileNative(dir, entry string, extra ...string) Built {
 // CompileWasm runs `ferret -target wasm -o <dir>/out.wasm <entry>`.
 func (r *Runner) CompileWasm(dir, entry string) Built {
 	out := filepath.Join(dir, "out.wasm")
-	p := runProc(r.CompileTimeout, dir, []string{"FERRET_LIBS_PATH=" + r.Libs}, r.Ferret, "-target", "wasm", "-o", out, filepath.Join(dir, entry))
+	p := runProc(r.CompileTimeout, dir, r.compilerEnv(), r.Ferret, "-target", "wasm", "-o", out, filepath.Join(dir, entry))
 	b := Built{Dir: dir, Compile: p, Artifact: out}
 	if _, err := os.Stat(out); err == nil {
 		b.Exists = true
@@ -139,8 +214,15 @@ func (r *Runner) CompileWasm(dir, entry string) Built {
 }
 
 // Exec runs a native executable with stdout/stderr on pipes.
+// A run that does not finish in RunTimeout (thousands of times the normal cost) is repeated
+// once with six times that before it is reported as a timeout: only a program that hangs
+// twice counts, never a loaded machine.
 func (r *Runner) Exec(b Built) Proc {
-	return runProc(r.RunTimeout, b.Dir, nil, b.Artifact)
+	p := runProc(r.RunTimeout, b.Dir, nil, b.Artifact)
+	if p.Timeout {
+		p = runProc(6*r.RunTimeout, b.Dir, nil, b.Artifact)
+	}
+	return p
 }
 
 // NodeResult is the observation of one wasm module run under node.
